@@ -669,6 +669,12 @@ func (c *Ctx) checkAutoPad(oi *opInfo) {
 		c.violate("R11", "R11:K4:autopad:"+strings.Join(merged, "~"), c.pos(oi.methods["Apply"].Pos()),
 			"auto_pad modes "+strings.Join(merged, " and ")+" are never compared against: they are computed by the same code path, so one of them (VALID means no padding) gets the other's padding instead of being implemented or refused")
 	}
+	if !validated {
+		// however the membership test is written: Init walked for declared and undeclared auto_pad strings
+		if known, ok := c.autoPadTable(oi); known {
+			validated = ok
+		}
+	}
 	c.decide(validated, "R11", "R11:K4:autopad:unknown-refused", c.pos(init.Pos()), "an auto_pad string outside the declared modes is refused at Init",
 		"an auto_pad value outside NOTSET/SAME_UPPER/SAME_LOWER/VALID is not refused: it silently gets the else-class padding")
 }
@@ -793,4 +799,44 @@ func callsNewDenseAndIterator(f *ssa.Function) bool {
 		}
 	}
 	return newDense && iter
+}
+
+// autoPadTable walks Conv.Init with the single attribute auto_pad = s: the four declared modes are accepted,
+// other strings refused. known=false when a walk cannot be followed.
+func (c *Ctx) autoPadTable(oi *opInfo) (known, ok bool) {
+	st := c.libInit()
+	onnxPkg := c.pkgByPath[pkgOnnx]
+	init := oi.methods["Init"]
+	if len(st.failed) > 0 || onnxPkg == nil || init == nil {
+		return false, false
+	}
+	for _, cell := range []struct {
+		s      string
+		refuse bool
+	}{{"NOTSET", false}, {"SAME_UPPER", false}, {"SAME_LOWER", false}, {"VALID", false}, {"NO_SUCH_MODE", true}, {"", true}, {"same_upper", true}, {"SAME", true}} {
+		heap := st.heap.clone()
+		b := &rtBuilder{c: c, heap: heap, onnx: onnxPkg.Types}
+		at := b.obj(onnxPkg.Types, "AttributeProto", map[string]pval{"Name": {k: pStr, s: "auto_pad"}, "S": {k: pStr, s: cell.s}})
+		node := b.obj(onnxPkg.Types, "NodeProto", map[string]pval{"Attribute": b.list(at)})
+		recv := heap.newObj(oi.named)
+		p := &pinterp{c: c, budget: 100000, objects: true, globals: st.globals}
+		res, _ := p.run(init, []pval{recv, node}, 0, heap)
+		if p.aborted || len(res) != 1 {
+			return false, false
+		}
+		switch {
+		case nonNilKind(res[0].k):
+			if !cell.refuse {
+				// a declared mode that Init refuses is a refusal the property allows ("implemented or refused")
+				continue
+			}
+		case res[0].k == pNil:
+			if cell.refuse {
+				return true, false
+			}
+		default:
+			return false, false
+		}
+	}
+	return true, true
 }
